@@ -1174,12 +1174,23 @@ def build_unit(unit: Unit, cover=False, prelude_dir=None, skip=()):
                                     at_, _n = _code_sub(at_, rx, rp)
                         assoc += "    " + at_ + "\n"
         body = "\n".join(fn_texts)
+        # R34: file-level constants of primitive type that the verified text mentions are copied into its module (verbatim), unless
+        # the unit already defines the name
+        imported_consts = ""
+        if item.mode == "verify":
+            defined_here = "".join(parts) + unit.lemmas
+            for nm in sorted(set(re.findall(r'\b[A-Z][A-Z0-9_]{2,}\b', body))):
+                if nm in getattr(unit, "consts", {}) or re.search(r'\b(const|static|fn)\s+' + nm + r'\b', defined_here):
+                    continue
+                cands = [it_ for it_ in s.all_items() if it_.kind == 'const' and it_.name == nm]
+                if len(cands) == 1 and re.match(r'\s*(pub(\([^)]*\))?\s+)?const\s+' + nm + r'\s*:\s*(usize|isize|bool|[ui](8|16|32|64|128))\s*=', cands[0].text):
+                    imported_consts += "    " + cands[0].text.strip() + "\n"
         if item.header is not None:
             hdr = item.header_out or item.header
             inner = f"{hdr} {{\n{assoc}{fill(item.extra_assoc, unit.params)}\n{body}\n}}\n"
         else:
             inner = body
-        modtext = f"\nmod {modname} {{ use super::*;\n// ---- {item.file} :: {item.header} [{item.mode}]\n{fill(item.pre, unit.params)}\n{inner}}}\n"
+        modtext = f"\nmod {modname} {{ use super::*;\n// ---- {item.file} :: {item.header} [{item.mode}]\n{imported_consts}{fill(item.pre, unit.params)}\n{inner}}}\n"
         if item.header is not None and re.match(r'\s*(pub(\([^)]*\))?\s+)?trait\b', item.header):
             modtext += f"pub use {modname}::*;\n"
         modtext = fill(modtext, unit.params)
